@@ -144,6 +144,18 @@ func main() {
 	}
 	var wg sync.WaitGroup
 	var hangs int32
+	// journal of started / finished cases: when the library panics on a goroutine of its own the whole process dies, and the
+	// orchestrator reads from here which cases were running, to re-run them one by one
+	jf, _ := os.Create(filepath.Join(*out, name+".journal"))
+	var jmu sync.Mutex
+	journal := func(tag string, i int) {
+		if jf == nil {
+			return
+		}
+		jmu.Lock()
+		fmt.Fprintf(jf, "%s %s\n", tag, lines[i])
+		jmu.Unlock()
+	}
 	sem := make(chan struct{}, par)
 	for i := range lines {
 		wg.Add(1)
@@ -156,6 +168,8 @@ func main() {
 			if atomic.LoadInt32(&hangs) >= 3 {
 				return
 			}
+			journal("S", i)
+			defer journal("D", i)
 			t0 := time.Now()
 			// watchdog: a case that does not come back (a call of the library that blocks for ever) becomes the observation
 			// hang=watchdog instead of stalling the whole run; its goroutines are abandoned
